@@ -167,3 +167,8 @@ def run(ctx):
     # ---- 5. portable IEEE-754 serialisers and byte-order helpers (vlib/ieee.py) ----
     from .. import ieee
     ieee.run_ieee(ctx)
+
+    # ---- 6. the portable IEEE path through every caller type x byte order (vlib/ieeecross.py); G.711 entry points in one process, permuted orders (vlib/g711order.py) ----
+    from .. import ieeecross, g711order
+    ieeecross.run(ctx)
+    g711order.run(ctx)
